@@ -482,6 +482,87 @@ fn push_body(run: &mut H2Run, chunks: &[Vec<u8>], trailers: Option<&[Hdr]>, max_
 
 // ------------------------------------------------------------ the area --
 
+/// (method, uri, authority, body framing, complete)
+type Und = (Vec<u8>, Vec<u8>, Vec<u8>, String, bool);
+
+/// what the HTTP/1.1 frontend forwards for a client byte string, in-process: real
+/// `kawa::h1::parse` with the real editor, plus the glue of `mux/h1.rs` replicated
+/// (400 on a request without method / authority / path, keep-alive reset between
+/// pipelined requests). Returns (bytes toward the backend, what sozu understood, rejected).
+fn h1_inprocess(input: &[u8], cuts: &[usize], cx: &Cx) -> (Vec<u8>, Vec<Und>, bool) {
+    let input = input.to_vec();
+    let mut pool = Pool::with_capacity(1, 1, BUF);
+    let mut kawa = Kawa::new(Kind::Request, Buffer::new(pool.checkout().expect("checkout")));
+    let mut c = cx.real_req();
+    let mut backend: Vec<u8> = vec![];
+    // (method, uri, authority, body framing, complete)
+    let mut und: Vec<(Vec<u8>, Vec<u8>, Vec<u8>, String, bool)> = vec![];
+    let mut rejected = false;
+    let mut counted = false; // current request already checked by the "first seen" glue of h1.rs
+    let mut pos = 0;
+    let mut bounds: Vec<usize> = cuts.iter().copied().filter(|&x| x > 0 && x < input.len()).collect();
+    bounds.push(input.len());
+    'outer: for end in bounds {
+        if end <= pos {
+            continue;
+        }
+        if kawa.storage.available_space() < end - pos {
+            break;
+        }
+        kawa.storage.write_all(&input[pos..end]).expect("write");
+        pos = end;
+        loop {
+            let was_main = kawa.is_main_phase();
+            kawa::h1::parse(&mut kawa, &mut c);
+            if kawa.is_error() {
+                rejected = true;
+                break 'outer;
+            }
+            if kawa.is_main_phase() && !was_main && !counted {
+                // h1.rs::readable: a request without method / authority / path is answered 400
+                if c.method.is_none() || c.authority.is_none() || c.path.is_none() {
+                    rejected = true;
+                    break 'outer;
+                }
+                counted = true;
+            }
+            if kawa.is_terminated() {
+                let u = understood(&kawa);
+                kawa.prepare(&mut H1BlockConverter);
+                let out = out_bytes(&kawa);
+                kawa.consume(out.len());
+                backend.extend_from_slice(&out);
+                if let Some((m, t, a, b)) = u {
+                    und.push((m, t, a, b, true));
+                }
+                // keep-alive reset of h1.rs::writable (front.clear(), storage kept for pipelining)
+                if !c.keep_alive_frontend {
+                    break 'outer;
+                }
+                kawa.clear();
+                c.reset();
+                counted = false;
+                if kawa.storage.is_empty() {
+                    break;
+                }
+            } else {
+                break;
+            }
+        }
+    }
+    if !rejected && kawa.is_main_phase() && !kawa.is_terminated() && counted {
+        // headers (and whatever body arrived) of an unfinished request are forwarded
+        let u = understood(&kawa);
+        kawa.prepare(&mut H1BlockConverter);
+        let out = out_bytes(&kawa);
+        backend.extend_from_slice(&out);
+        if let Some((m, t, a, b)) = u {
+            und.push((m, t, a, b, false));
+        }
+    }
+    (backend, und, rejected)
+}
+
 struct Headers {
     prop: String,
 }
@@ -942,6 +1023,84 @@ impl Headers {
         format!("ok {}", if fields.is_empty() { "_".into() } else { fields.join(",") })
     }
 
+    /// an HTTP/2 backend's response HEADERS through the real `handle_header` (response arm) and H1 serialisation
+    fn op_h2resp(&self, w: &[&str], r: &mut ImplRun) -> String {
+        let (ml, mf, es) = (w[1].parse::<u32>().unwrap_or(0), w[2].parse::<u32>().unwrap_or(0), w[3] == "1");
+        let cx = if w[4] == "-" { None } else { Cx::parse(w[4]) };
+        let hs = unhl(w[5]);
+        let mut pool = Pool::with_capacity(1, 1, BUF);
+        let mut kawa = Kawa::new(Kind::Response, Buffer::new(pool.checkout().expect("checkout")));
+        let mut enc = loona_hpack::Encoder::new();
+        let mut block = vec![];
+        for (k, v) in &hs {
+            enc.encode_header_into((k.as_slice(), v.as_slice()), &mut block).expect("hpack encode");
+        }
+        let mut dec = loona_hpack::Decoder::new();
+        let res = match cx.as_ref() {
+            Some(c) => handle_header(&mut dec, &mut Default::default(), 1, &mut kawa, &block, es, &mut c.real(), ml, mf, false),
+            None => handle_header(&mut dec, &mut Default::default(), 1, &mut kawa, &block, es, &mut NoOp, ml, mf, false),
+        };
+        match res {
+            Err((e, _)) => {
+                let cls = match format!("{e:?}").as_str() {
+                    "ProtocolError" => "protocol".to_string(),
+                    "EnhanceYourCalm" => "calm".to_string(),
+                    other => format!("other:{other}"),
+                };
+                r.tags.push(format!("h2resp:reject:{cls}"));
+                format!("reject {cls}")
+            }
+            Ok(()) => {
+                r.tags.push("h2resp:accept".into());
+                let body = match kawa.body_size {
+                    kawa::BodySize::Empty => "e".to_string(),
+                    kawa::BodySize::Length(n) => format!("l{n}"),
+                    kawa::BodySize::Chunked => "c".to_string(),
+                };
+                kawa.prepare(&mut H1BlockConverter);
+                let out = out_bytes(&kawa);
+                // the client must get the backend's status and header fields intact, plus only the documented additions
+                let status = hs.iter().find(|(k, _)| eq_nc(k, b":status")).map(|h| h.1.clone()).unwrap_or_default();
+                match header_lines(&out) {
+                    None => r.oracle.push(("h2resp-unreadable".into(), lossy(&out))),
+                    Some((line, lines)) => {
+                        if line != [&b"HTTP/1.1 "[..], status.as_slice(), b" FromH2"].concat() {
+                            r.oracle.push(("h2resp-status-altered".into(), format!("backend :status {} but the client reads `{}`", lossy(&status), lossy(&line))));
+                        }
+                        let regular: Vec<Hdr> = hs.iter().filter(|(k, _)| !k.starts_with(b":")).cloned().collect();
+                        // an equal duplicate content-length is written once (RFC 9110 8.6)
+                        let mut seen_cl = false;
+                        let expect_head: Vec<Hdr> = regular
+                            .iter()
+                            .filter(|(k, _)| {
+                                if eq_nc(k, b"content-length") {
+                                    let first = !seen_cl;
+                                    seen_cl = true;
+                                    first
+                                } else {
+                                    true
+                                }
+                            })
+                            .map(|(k, v)| if cx.as_ref().map(|c| c.closing).unwrap_or(false) && eq_nc(k, b"connection") { (k.clone(), b"close".to_vec()) } else { (k.clone(), v.clone()) })
+                            .collect();
+                        let n = expect_head.len();
+                        if lines.len() < n || lines[..n] != expect_head[..] {
+                            r.oracle.push(("h2resp-fields-altered".into(), format!("backend sent {} client gets {}", show_hl(&regular), show_hl(&lines))));
+                        }
+                        for (k, v) in lines.iter().skip(n) {
+                            let framing = (k == b"Content-Length" && v == b"0") || (k == b"Transfer-Encoding" && v == b"chunked");
+                            let proxy = cx.as_ref().map(|c| (k == c.sozu_id.as_bytes() && v == c.req_id.as_bytes()) || (k == b"Set-Cookie" && c.sticky_session.is_some() && c.sticky_session != c.sticky_found)).unwrap_or(false);
+                            if !framing && !proxy {
+                                r.oracle.push(("h2resp-undocumented-addition".into(), format!("`{}: {}` added to the response", lossy(k), lossy(v))));
+                            }
+                        }
+                    }
+                }
+                format!("ok {} body={body}", hex(&out))
+            }
+        }
+    }
+
     /// per-frontend response header edits: real `apply_response_header_edits` on a parsed response
     fn op_respedits(&self, w: &[&str], r: &mut ImplRun) -> String {
         // respedits <edits: hexk:hexv:mode,...> <fields>
@@ -1017,76 +1176,7 @@ impl Headers {
     fn op_h1(&self, w: &[&str], r: &mut ImplRun) -> String {
         let input = unhex(w[1]);
         let cuts: Vec<usize> = if w[2] == "_" { vec![] } else { w[2].split(',').filter_map(|x| x.parse().ok()).collect() };
-        let cx = default_cx();
-        let mut pool = Pool::with_capacity(1, 1, BUF);
-        let mut kawa = Kawa::new(Kind::Request, Buffer::new(pool.checkout().expect("checkout")));
-        let mut c = cx.real_req();
-        let mut backend: Vec<u8> = vec![];
-        // (method, uri, authority, body framing, complete)
-        let mut und: Vec<(Vec<u8>, Vec<u8>, Vec<u8>, String, bool)> = vec![];
-        let mut rejected = false;
-        let mut counted = false; // current request already checked by the "first seen" glue of h1.rs
-        let mut pos = 0;
-        let mut bounds: Vec<usize> = cuts.iter().copied().filter(|&x| x > 0 && x < input.len()).collect();
-        bounds.push(input.len());
-        'outer: for end in bounds {
-            if end <= pos {
-                continue;
-            }
-            if kawa.storage.available_space() < end - pos {
-                break;
-            }
-            kawa.storage.write_all(&input[pos..end]).expect("write");
-            pos = end;
-            loop {
-                let was_main = kawa.is_main_phase();
-                kawa::h1::parse(&mut kawa, &mut c);
-                if kawa.is_error() {
-                    rejected = true;
-                    break 'outer;
-                }
-                if kawa.is_main_phase() && !was_main && !counted {
-                    // h1.rs::readable: a request without method / authority / path is answered 400
-                    if c.method.is_none() || c.authority.is_none() || c.path.is_none() {
-                        rejected = true;
-                        break 'outer;
-                    }
-                    counted = true;
-                }
-                if kawa.is_terminated() {
-                    let u = understood(&kawa);
-                    kawa.prepare(&mut H1BlockConverter);
-                    let out = out_bytes(&kawa);
-                    kawa.consume(out.len());
-                    backend.extend_from_slice(&out);
-                    if let Some((m, t, a, b)) = u {
-                        und.push((m, t, a, b, true));
-                    }
-                    // keep-alive reset of h1.rs::writable (front.clear(), storage kept for pipelining)
-                    if !c.keep_alive_frontend {
-                        break 'outer;
-                    }
-                    kawa.clear();
-                    c.reset();
-                    counted = false;
-                    if kawa.storage.is_empty() {
-                        break;
-                    }
-                } else {
-                    break;
-                }
-            }
-        }
-        if !rejected && kawa.is_main_phase() && !kawa.is_terminated() && counted {
-            // headers (and whatever body arrived) of an unfinished request are forwarded
-            let u = understood(&kawa);
-            kawa.prepare(&mut H1BlockConverter);
-            let out = out_bytes(&kawa);
-            backend.extend_from_slice(&out);
-            if let Some((m, t, a, b)) = u {
-                und.push((m, t, a, b, false));
-            }
-        }
+        let (backend, und, rejected) = h1_inprocess(&input, &cuts, &default_cx());
         r.tags.push(format!("h1:{}:{}", if rejected { "reject" } else { "noreject" }, und.len().min(3)));
         if self.c03() {
             self.c03_h1_check(r, &input, &backend, &und, rejected);
@@ -1434,6 +1524,185 @@ impl Headers {
     }
 }
 
+// --------------------------------------------- C03, black-box HTTP/1.1 frontend --
+// `--family h1rig`: the same generated byte strings, sent in one write to a real
+// sozu worker (rig); a recording backend answers every request it can read; the
+// bytes it received are (a) judged by the same strict-reader oracle and (b)
+// compared with the in-process prediction `h1_inprocess` (real parser + editor +
+// the replicated glue of mux/h1.rs), so that replication is itself checked
+// against the real `h1.rs` (readable / writable / 400 paths / pipelining reset).
+
+struct H1Rig;
+
+const ROUTABLE: [&str; 6] = ["a.example", "a", "b", "c", "evil", "localhost"];
+
+fn canon_ids(bytes: &[u8]) -> Vec<u8> {
+    // the per-request ULID is only known at run time: X-Request-Id / Sozu-Id values -> the fixed id
+    let mut out = bytes.to_vec();
+    for name in [&b"X-Request-Id: "[..], b"Sozu-Id: "] {
+        let mut from = 0;
+        while let Some(i) = verif_harness::rig::find(&out[from..], name) {
+            let at = from + i + name.len();
+            if out.len() >= at + 26 && out[at..at + 26].iter().all(|b| b.is_ascii_digit() || b.is_ascii_uppercase()) && out.get(at + 26) == Some(&b'\r') {
+                out[at..at + 26].copy_from_slice(b"01ARZ3NDEKTSV4RRFFQ69G5FAW");
+            }
+            from = at;
+        }
+    }
+    out
+}
+
+impl H1Rig {
+    /// one connection: send `input`, let the backend answer what it can read; returns the bytes the
+    /// backend received (all its connections, in accept order) and the client's port
+    fn exchange(input: &[u8]) -> verif_harness::rig::RigResult<(Vec<u8>, SocketAddr, u16, Vec<u8>)> {
+        use verif_harness::rig::*;
+        let mut w = Worker::start(WorkerOpts::default())?;
+        let front = w.add_http_listener()?;
+        let be = MockBackend::listen()?;
+        w.add_cluster(cluster("c0"))?;
+        for h in ROUTABLE {
+            w.add_http_frontend(front, h, "/", "c0")?;
+        }
+        w.add_backend("c0", "c0-0", be.addr)?;
+        let t = std::time::Duration::from_millis(2000);
+        let mut c = RawConn::connect(front)?;
+        let port = c.local_addr().map(|a| a.port()).unwrap_or(0);
+        c.write_all(input, t)?;
+        let mut conns: Vec<(RawConn, usize)> = vec![]; // (connection, requests answered)
+        let start = std::time::Instant::now();
+        let mut last_activity = std::time::Instant::now();
+        while last_activity.elapsed() < std::time::Duration::from_millis(250) && start.elapsed() < std::time::Duration::from_millis(4000) {
+            if let Some(b) = be.try_accept() {
+                conns.push((b, 0));
+                last_activity = std::time::Instant::now();
+            }
+            for (b, answered) in conns.iter_mut() {
+                let before = b.received.len();
+                let _ = b.read_some(std::time::Duration::from_millis(5));
+                if b.received.len() != before {
+                    last_activity = std::time::Instant::now();
+                }
+                let (ps, _) = strict_all(&b.received);
+                while *answered < ps.len() {
+                    let _ = b.write_all(b"HTTP/1.1 200 OK\r\nContent-Length: 0\r\n\r\n", t);
+                    *answered += 1;
+                    last_activity = std::time::Instant::now();
+                }
+            }
+            let before = c.received.len();
+            let _ = c.read_some(std::time::Duration::from_millis(5));
+            if c.received.len() != before {
+                last_activity = std::time::Instant::now();
+            }
+        }
+        let got: Vec<u8> = conns.iter().flat_map(|(b, _)| b.received.clone()).collect();
+        let client_view = c.received.clone();
+        for (b, _) in conns {
+            b.close();
+        }
+        c.close();
+        w.stop();
+        Ok((got, front, port, client_view))
+    }
+}
+
+impl Area for H1Rig {
+    fn name(&self) -> &'static str {
+        "headers-h1rig"
+    }
+    fn rule(&self) -> String {
+        "black-box HTTP/1.1 frontend (real worker, one TCP write per case, recording backend that answers every request a strict reader can read): the HTTP/1.1 byte strings of the in-process family (valid pipelines, 40 smuggling shapes, byte edits); what the backend received is judged by the strict-reader oracle and compared with the in-process prediction. non-trivial = the exchange ran; distinct = distinct input".into()
+    }
+    fn cases(&self, thorough: bool) -> u64 {
+        if thorough {
+            6000
+        } else {
+            600
+        }
+    }
+    fn corpus(&self) -> Vec<Vec<String>> {
+        corpus("C03").into_iter().filter(|c| c.iter().any(|o| o.starts_with("h1 "))).collect()
+    }
+    fn gen(&self, rng: &mut Rng, _thorough: bool) -> Vec<String> {
+        let b = gen_h1_bytes(rng);
+        vec!["new".into(), op_h1(&b, &[])]
+    }
+    fn run_impl(&self, ops: &[String]) -> ImplRun {
+        let mut r = ImplRun::default();
+        let judge = Headers { prop: "C03".into() };
+        for op in ops {
+            let w: Vec<&str> = op.split_whitespace().collect();
+            if w.first() == Some(&"new") {
+                r.out.push("new".into());
+                continue;
+            }
+            if w.first() != Some(&"h1") || w.len() != 3 {
+                r.out.push("bad-op".into());
+                continue;
+            }
+            let input = unhex(w[1]);
+            r.out.push(strict_line(&input));
+            match H1Rig::exchange(&input) {
+                Err(e) => r.tags.push(format!("rig-error:{}", format!("{e:?}").chars().take(24).collect::<String>())),
+                Ok((got, front, port, client_view)) => {
+                    r.tags.push("h1rig:exchange".into());
+                    let cx = Cx {
+                        closing: false,
+                        https: false,
+                        public: front,
+                        peer: Some(SocketAddr::new(IpAddr::V4(Ipv4Addr::LOCALHOST), port)),
+                        sticky: "SOZUBALANCEID".into(),
+                        sozu_id: "Sozu-Id".into(),
+                        req_id: "01ARZ3NDEKTSV4RRFFQ69G5FAW".into(),
+                        elide: false,
+                        send: false,
+                        sticky_session: None,
+                        sticky_found: None,
+                    };
+                    let (pred, und, rejected) = h1_inprocess(&input, &[], &cx);
+                    // only when every understood request is routed by the frontends of this rig
+                    let routable = und.iter().all(|u| {
+                        // the router only routes `host[:port]` with a port in 1..=65535 (`hostname_and_port`)
+                        let h = String::from_utf8_lossy(&u.2).to_string();
+                        let mut it = h.splitn(2, ':');
+                        let host = it.next().unwrap_or("");
+                        let port_ok = match it.next() {
+                            None => true,
+                            Some(p) => !p.is_empty() && p.bytes().all(|b| b.is_ascii_digit()) && p.parse::<u32>().map(|n| (1..=65535).contains(&n)).unwrap_or(false),
+                        };
+                        ROUTABLE.contains(&host) && port_ok && (u.1.starts_with(b"/") || u.1.starts_with(b"http://"))
+                    });
+                    if routable {
+                        let a = canon_ids(&got);
+                        // a backend that cannot read what it got (one of the open shapes) never answers, so sozu
+                        // never forwards the pipelined successors: then the real bytes are a prefix of the prediction
+                        let stuck = strict_all(&a).1 > 0;
+                        let same = if stuck { pred.starts_with(&a) } else { a == pred };
+                        if !same {
+                            // the replicated glue against the real h1.rs
+                            let class = if rejected && a.len() > pred.len() { "c03-h1-forwarded-after-parse-error" } else { "c03-h1-rig-differs-from-inprocess" };
+                            r.oracle.push((class.into(), format!("real worker forwarded `{}` but parser+editor+replicated glue predict `{}`", lossy(&a), lossy(&pred))));
+                        } else {
+                            // the property's oracle on what the real backend received
+                            let mut rr = ImplRun::default();
+                            judge.c03_h1_check(&mut rr, &input, &got, &und, rejected);
+                            r.oracle.extend(rr.oracle);
+                        }
+                        if rejected && und.is_empty() && !client_view.starts_with(b"HTTP/1.1 400") {
+                            r.oracle.push(("c03-h1-parse-error-not-400".into(), format!("client got `{}`", lossy(&client_view[..client_view.len().min(40)]))));
+                        }
+                    } else {
+                        r.tags.push("h1rig:unroutable-host".into());
+                    }
+                }
+            }
+        }
+        r.nontrivial = r.tags.iter().any(|t| t == "h1rig:exchange");
+        r
+    }
+}
+
 include!("../headers_gen.rs");
 
 impl Area for Headers {
@@ -1474,13 +1743,14 @@ impl Area for Headers {
                 ("h1", 3) => self.op_h1(&w, &mut r),
                 ("edit", 8) => self.op_edit(&w, &mut r),
                 ("resp", 3) => self.op_resp(&w, &mut r),
+                ("h2resp", 6) => self.op_h2resp(&w, &mut r),
                 ("respedits", 3) => self.op_respedits(&w, &mut r),
                 ("hdef", 2) | ("hadd", 6) | ("hpatch", 2) | ("hunset", 1) | ("hdel", 2) | ("hlook", 3) => self.op_hsts(&w, &mut r, &mut world),
                 _ => "bad-op".to_string(),
             };
             r.out.push(line);
         }
-        r.nontrivial = r.tags.iter().any(|t| t.starts_with("h2:") || t.starts_with("edit:") || t == "resp" || t == "respedits" || t == "hsts:lookup" || t.starts_with("h1:"));
+        r.nontrivial = r.tags.iter().any(|t| t.starts_with("h2:") || t.starts_with("edit:") || t == "resp" || t.starts_with("h2resp:") || t == "respedits" || t == "hsts:lookup" || t.starts_with("h1:"));
         r
     }
     fn classify_mismatch(&self, ops: &[String], impl_out: &[String], model_out: &[String]) -> String {
@@ -1504,6 +1774,11 @@ impl Area for Headers {
 
 fn main() {
     let args = parse_args();
+    if args.extra.get("family").map(|f| f == "h1rig").unwrap_or(false) {
+        verif_harness::rig::quiet_logs_silently();
+        verif_harness::rig::silence_worker_panics();
+        std::process::exit(run_area(&H1Rig, &args));
+    }
     let area = Headers { prop: if args.prop.is_empty() { "C03".into() } else { args.prop.clone() } };
     std::process::exit(run_area(&area, &args));
 }
